@@ -190,6 +190,16 @@ def cases(draw, path, module=None, algo=None):
     kws = [[n, draw(structures())] for n in draw(st.lists(st.sampled_from(['p', 'q', 'r', 'tol', 'deep']), unique=True, max_size=2))]      # 'tol' / 'deep': names klepto uses itself
     if not args and not kws:
         args = [draw(floatspecs())]
+    # the SAME container object reachable twice in one call - f(p, p), f([p, p]), f(p, q=p): each occurrence is rounded
+    alias = None
+    if args and args[0][0] in 'tld' and draw(st.integers(0, 4)) == 0:
+        alias = draw(st.sampled_from(['args', 'nested', 'kw']))
+        if alias == 'args':
+            args = [args[0], copy.deepcopy(args[0])] + args[2:]
+        elif alias == 'nested':
+            args = [['l', [args[0], copy.deepcopy(args[0])]]] + args[1:]
+        else:
+            kws = [['p', copy.deepcopy(args[0])]] + [kv for kv in kws if kv[0] != 'p']
     # second call: nudge one float
     where = [('a', i, p) for i, a in enumerate(args) for p in float_paths(a)] + [('k', i, p) for i, (n, v) in enumerate(kws) for p in float_paths(v)]
     args2, kws2 = copy.deepcopy(args), copy.deepcopy(kws)
@@ -213,7 +223,7 @@ def cases(draw, path, module=None, algo=None):
         else:
             kws2[i][1] = nudge(kws[i][1], p, delta)
         nudged = [w, i, len(p)]
-    case = {'tol': tol, 'deep': deep, 'args': args, 'kws': kws, 'args2': args2, 'kws2': kws2, 'nudged': nudged, 'twin': twin, 'path': path,
+    case = {'tol': tol, 'deep': deep, 'args': args, 'kws': kws, 'args2': args2, 'kws2': kws2, 'nudged': nudged, 'twin': twin, 'alias': alias, 'path': path,
             'module': module or draw(st.sampled_from(['std', 'safe'])), 'algo': algo or draw(st.sampled_from(H.ALGOS + H.DISPATCHED + ['lru:0', 'rr:0'])),
             'named': draw(st.booleans()),
             'keymap': draw(st.sampled_from([{'cls': 'picklemap', 'opt': None, 'flat': True}, {'cls': 'picklemap', 'opt': None, 'flat': False},
@@ -304,8 +314,22 @@ def run_case(case):
     kind = 'deep' if deep else 'simple'
     a1 = tuple(V.build(s) for s in case['args'])
     k1 = dict((n, V.build(s)) for n, s in case['kws'])
+    if case.get('alias') == 'args':
+        a1 = (a1[0], a1[0]) + a1[2:]
+    elif case.get('alias') == 'nested':
+        a1 = ([a1[0][0], a1[0][0]],) + a1[1:]
+    elif case.get('alias') == 'kw':
+        k1 = dict(k1, p=a1[0])
     a2 = tuple(V.build(s) for s in case['args2'])
     k2 = dict((n, V.build(s)) for n, s in case['kws2'])
+    # the second call repeats the object sharing where its specs are still equal (keys built by a real pickler depend on which argument objects
+    # are identical - open finding D25 under C09 - and that is not what this property is about)
+    if case.get('alias') == 'args' and case['args2'][0] == case['args2'][1]:
+        a2 = (a2[0], a2[0]) + a2[2:]
+    elif case.get('alias') == 'nested' and case['args2'][0][1][0] == case['args2'][0][1][1]:
+        a2 = ([a2[0][0], a2[0][0]],) + a2[1:]
+    elif case.get('alias') == 'kw' and dict((n, v) for n, v in case['kws2']).get('p') == case['args2'][0]:
+        k2 = dict(k2, p=a2[0])
     specs = list(case['args']) + [v for _, v in case['kws']]
     maxdepth = max([len(p) for s in specs for p in float_paths(s)] or [-1])
     classes = ['path:' + case['path'], 'tol:%r' % (tol,), 'deep:%s' % deep, 'floatdepth:%d' % min(maxdepth, 3)]
@@ -415,9 +439,11 @@ def run_case(case):
         classes.append('straddles_boundary')
     if case.get('twin'):
         classes.append('second_call_is_typed_twin')
+    if case.get('alias'):
+        classes.append('same_object_twice')
     return out, nt, classes
 
 
-REQUIRED_CLASSES = ['second_call_is_typed_twin', 'tol:16', 'tol:20', 'dict_subclass', 'pair_shares', 'pair_differs', 'straddles_boundary', 'nonstr_dict_key', 'floatdepth:1', 'floatdepth:2', 'tol:-1', 'tol:None', 'tol:0',
+REQUIRED_CLASSES = ['same_object_twice', 'second_call_is_typed_twin', 'tol:16', 'tol:20', 'dict_subclass', 'pair_shares', 'pair_differs', 'straddles_boundary', 'nonstr_dict_key', 'floatdepth:1', 'floatdepth:2', 'tol:-1', 'tol:None', 'tol:0',
                     'deep:True', 'deep:False', 'path:standalone', 'path:call', 'path:key', 'path:keygen']
 TRIGGERS = {}
